@@ -156,7 +156,7 @@ impl IovecExec {
             }
             let pend = v.has_pending_backrefs();
             let nslices = v.len();
-            let shown = if touched == Some(i) || bytes.len() <= 16 { to_hex(&bytes) } else { format!("#{}:{:016x}", bytes.len(), fnv64(&bytes)) };
+            let shown = if (touched == Some(i) && bytes.len() <= 4096) || bytes.len() <= 16 { to_hex(&bytes) } else { format!("#{}:{:016x}", bytes.len(), fnv64(&bytes)) };
             so.obs.push(format!("A v{} size={} pend={} stable={}", i, v.total_size(), pend as u8, shown));
             so.obs.push(format!(
                 "S v{} n={} stable={} rem={}",
